@@ -240,23 +240,34 @@ fn bit_flips<V: Variant>(ctx: &mut Ctx, seed: [u8; 32], label: &str, bits: Vec<u
             (b, kg::<V>(s))
         })
         .collect();
-    let mut part = Part::new(&format!("seed_bit_flips_{}_{}", V::N, label), &format!("{}::keygen on seed {} with single-bit flips at {} bit positions{}: secret AND public key bytes must differ from the unflipped key and from each other", V::name(), label, bits.len(), if bits.len() == 256 { " (all)" } else { " (a regular subset; all 256 in the thorough tier)" }));
+    let mut part = Part::new(&format!("seed_bit_flips_{}_{}", V::N, label), &format!("{}::keygen on seed {} with single-bit flips at {} bit positions{}: the key pair must differ from the unflipped one (how many flips leave only the secret or only the public key unchanged, and how many distinct pairs arise, is reported)", V::name(), label, bits.len(), if bits.len() == 256 { " (all)" } else { " (a regular subset; all 256 in the thorough tier)" }));
     let mut seen: BTreeSet<String> = BTreeSet::new();
     let (bsk, bpk) = base.split_once(':').unwrap();
     seen.insert(base.clone());
+    let (mut same_sk, mut same_pk) = (0u32, 0u32);
     for (b, k) in res {
         part.states += 1;
         part.transitions += 1;
         part.validated += 1;
         let (sk, pk) = k.split_once(':').unwrap();
-        if sk == bsk || pk == bpk || !seen.insert(k.clone()) {
+        seen.insert(k.clone());
+        if sk == bsk {
+            same_sk += 1;
+        }
+        if pk == bpk {
+            same_pk += 1;
+        }
+        // the property: keygen(seed xor e_i) != keygen(seed) as a key pair
+        if sk == bsk && pk == bpk {
             ctx.violation(
                 format!("seed-bit-ignored:n={}:bit{}", V::N, b),
-                format!("{}::keygen: flipping bit {} of seed {} does not change {}", V::name(), b, label, if sk == bsk && pk == bpk { "the key pair" } else if pk == bpk { "the public key" } else if sk == bsk { "the secret key" } else { "the key pair relative to another flipped seed" }),
+                format!("{}::keygen: flipping bit {} of seed {} does not change the key pair", V::name(), b, label),
                 json!({"kind":"bitflip","variant":V::N,"seed":hex(&seed),"bit":b}),
             );
         }
     }
+    part.set("flips_leaving_the_secret_key_unchanged", json!(same_sk));
+    part.set("flips_leaving_the_public_key_unchanged", json!(same_pk));
     part.exhaustive = bits.len() == 256;
     part.outcome(format!("distinct key pairs {}", seen.len()));
     ctx.add_part(part);
@@ -323,6 +334,9 @@ pub fn run(tier: Tier) {
         bit_flips::<V1024>(&mut ctx, seed_bytes(off), &format!("LE64({})", off), (0..256).step_by(16).collect());
     }
     crate::e5::run_part(&mut ctx, "keygen");
+    if tier.thorough() {
+        crate::e5::run_part(&mut ctx, "keygen3");
+    }
     ctx.sample(json!({"target":"falcon512::keygen(LE64(0)||0^24)","history":"[B: falcon1024::keygen(s''), target] in a fresh process","expected":"same bytes as a fresh process running only the target"}));
     ctx.assume("seeds outside the enumerated ones are not covered; StdRng::from_seed takes all 32 bytes as the ChaCha key and the float pipeline is deterministic");
     ctx.assume("call-level interleavings only (one call at a time); intra-call preemption is not explored");
@@ -344,7 +358,7 @@ pub fn replay(case: &Value) -> Result<Option<String>, String> {
             let (a, c) = if variant == 512 { (kg::<V512>(seed), kg::<V512>(s)) } else { (kg::<V1024>(seed), kg::<V1024>(s)) };
             let (ask, apk) = a.split_once(':').unwrap();
             let (csk, cpk) = c.split_once(':').unwrap();
-            Ok(if ask == csk || apk == cpk { Some(format!("flipping seed bit {} leaves part of the key pair unchanged", b)) } else { None })
+            Ok(if ask == csk && apk == cpk { Some(format!("flipping seed bit {} leaves the key pair unchanged", b)) } else { None })
         }
         "repeat" => {
             let (a, b) = if variant == 512 { (kg::<V512>(seed), kg::<V512>(seed)) } else { (kg::<V1024>(seed), kg::<V1024>(seed)) };
